@@ -129,6 +129,26 @@ def agree(ctx, ip, label, a, b, oa, ob, out_a, out_b, la, lb, G):
     Ea, Eb = encoded_element(out_a), encoded_element(out_b)
     pa2 = [exch(t, pla, out_b, da, Eb) for t in pa]
     pb2 = [exch(t, plb, out_a, db, Ea) for t in pb]
+    # a hand-written sort forks on the order of the two messages; under the exchange both ends
+    # compare the same two byte strings, so their orderings must be compatible (a < b on one end
+    # and b < a on the other is infeasible) and non-strict both ways means the messages are equal
+    facts = []
+    for (o, payload, peer_bytes, dec, peer_elem) in ((oa, pla, out_b, da, Eb), (ob, plb, out_a, db, Ea)):
+        for (t, p, _) in o.state.pc:
+            if is_app(t, "Lt", "LtE", "Gt", "GtE") and len(t.args) == 2:
+                x, y = (exch(u, payload, peer_bytes, dec, peer_elem) for u in t.args)
+                if {x._key, y._key} != {out_a._key, out_b._key}:
+                    continue
+                f = t.f if p else {"Lt": "GtE", "GtE": "Lt", "Gt": "LtE", "LtE": "Gt"}[t.f]
+                if f in ("Gt", "GtE"):
+                    x, y = y, x
+                facts.append((x._key, y._key, f in ("Lt", "Gt")))
+    for (x, y, strict) in facts:
+        if any(x2 == y and y2 == x and (strict or s2) for (x2, y2, s2) in facts):
+            return            # infeasible pair of paths: the two ends order the same two messages differently
+    if any((y, x, False) in facts for (x, y, st) in facts if not st):
+        pa2 = [subst(t, {out_b: out_a}) for t in pa2]      # the two messages are equal on this pair of paths
+        pb2 = [subst(t, {out_b: out_a}) for t in pb2]
     okn = len(pa2) == len(pb2)
     ctx.ob("C-slots", label + " count", okn, "%d transcript fields on both sides" % len(pa2) if okn else "%d vs %d fields" % (len(pa2), len(pb2)))
     if not okn:
